@@ -121,9 +121,9 @@ CHECKS.append({
             "numbers returned by the real code are compared with the definitions evaluated in Lean; PageRank scores are "
             "checked exactly against the damped equation within the proved bound and bit-for-bit against the Float mirror; "
             "Louvain output must be a partition whose reported modularity equals the formula.",
-    "note": "lowlink_correct (low-link DFS = cutVerticesDef / bridgesDef for all inputs) is NOT proved (only "
-            "lowlink_partial): articulation_points / bridges are decided per input by comparing implementation, mirror and "
-            "the definitions over the proved component count. Theorems are at Rat; IEEE rounding is outside them.",
+    "note": "All [C] and [S] theorems proved, including lowlink_correct (the low-link DFS mirror returns exactly "
+            "cutVerticesDef / bridgesDef for distinct nodes and any neighbour lists). Theorems are at Rat; IEEE rounding and "
+            "Python's recursion limit remain outside them (tied by the bit-level Float mirrors per run).",
 })
 
 CHECKS.append({
@@ -174,6 +174,23 @@ CHECKS.append({
     "note": "RNG, hypot and the insertion heuristics are transition payload (not modelled); floats compared with exact rational "
             "recomputation within 1e-6; customer ids must be their 1-based position and required_vehicles >= 1 (excluded region "
             "is run and recorded only).",
+})
+
+CHECKS.append({
+    "property_id": "C16",
+    "category": "proof",
+    "technique": "Lean 4 proof of a generic executable mirror (knapsack DP + scaling front end, four bin-packing heuristics) "
+                 "at Rat, verified checkers and certified optima on every implementation answer, bit-level Float mirror",
+    "text": "knapsack_dp_optimal (in-place backward DP = recurrence, backtrack feasible, value optimal over all subsets), "
+            "knapsack_mirror_feasible, knapsack_lossless_optimal / knapsack_lossless_near_optimal (OPTIMAL of the repaired "
+            "status rule is optimal for the original instance up to the stated slack), binpack_valid (all four heuristics: "
+            "valid packing, k >= ceil(sum/C), OPTIMAL only when k <= 1 and minimal), binpack_two_approx, scan_spec, "
+            "packOrder_sorted, minBinsP_le, chkKnapsack_iff, chkPack_iff, knapBest_optimal hold for all inputs of the model. "
+            "Every answer of solve_knapsack / solve_bin_pack is judged on the exact rational value of the doubles actually "
+            "passed, by the verified checkers and the certified optimum; the Float mirror must agree bit for bit.",
+    "note": "The 11/9 OPT + 6/9 bound is checked per instance against a certified optimum (<= 12 items), not proved "
+            "(binpack_two_approx is); the Float instance is tied to the code by mirror agreement only; tolerances for inexact "
+            "doubles are derived in ASSUMPTIONS; needs the two committed C16 fixes.",
 })
 
 _PENDING = "check not built yet in this round (planned in DESIGN.md §4); no claim made"
